@@ -52,7 +52,8 @@ def make(rng, cls):
         d = int(rng.randint(1, 3))
         X = rng.randint(0, side, size=(n, d)).astype(float)
         grid = numpy.array(numpy.meshgrid(*[numpy.arange(side)] * d)).reshape(d, -1).T.astype(float)
-        X[:len(grid)] = grid[:n]
+        mm = min(len(grid), n)
+        X[:mm] = grid[:mm]
         k = int(min(k, len(numpy.unique(X, axis=0))))
         if cls == "lattice-random-init":
             init = "random"
